@@ -54,6 +54,10 @@ fn main() {
         }
         "c07-digests" => c07::cmd_digests(&args[2..]),
         "c07-exec" => c07::cmd_exec(&args[2..]),
+        "rundigests" => {
+            let ctx = Ctx::from_env(&args[2], "quick");
+            netcheck::rundigests(&ctx, &args[2], args.get(3).and_then(|s| s.parse().ok()).unwrap_or(2000))
+        }
         "prof" => {
             let p = match args[2].as_str() { "C08" => sim::Profile::C08, "C18" => sim::Profile::C18, "C07" => sim::Profile::C07, _ => sim::Profile::C01 };
             netcheck::prof(p, args.get(3).and_then(|s| s.parse().ok()).unwrap_or(300), util::DEFAULT_SEED, args.get(4).and_then(|s| s.parse().ok()).unwrap_or(400));
